@@ -380,6 +380,47 @@ theorem fileBody_sim (hinj : NumInj num) (henc : EncLen enc) (fs : Bytes → Opt
           rw [hE id n (Nat.le_refl _) (by omega)]
           exact g2.env n
 
+/-- every file of the include tree below (`path`, `data`), to depth `fuel`, is free of `.global / .import / .export`
+and its operand trees are `plain` -/
+def LocalProject (fs : Bytes → Option Bytes) : Nat → Bytes → Bytes → Prop
+  | 0, _, _ => True
+  | fuel + 1, path, data => ∀ els perr, parseFile data = .ok (els, perr) → ∀ el ∈ els,
+      okInc el = true ∧ plainEl el = true ∧ ∀ p' d', incTarget fs path el = some (p', d') → LocalProject fs fuel p' d'
+
+theorem assembleFile_sim (hinj : NumInj num) (henc : EncLen enc) (fs : Bytes → Option Bytes) :
+    ∀ fuel, IncSim num enc fs (assembleFile fs enc fuel) (LocalProject fs fuel) := by
+  intro fuel
+  induction fuel with
+  | zero => intro env st st' data path id l _ _ _ _ _ h _; simp [assembleFile] at h
+  | succ fuel ih =>
+    intro env st st' data path id l hproj good henv r hfresh h herr
+    have hinc : IncOk (assembleFile fs enc fuel) := fun env st data path g => assembleFile_safe henc fs fuel true env st data path g
+    simp only [assembleFile, List.length_cons, Nat.add_one_ne_zero, if_false, ne_eq, not_true_eq_false] at h
+    obtain ⟨c, t, hc, ht, he⟩ := enterFile_true good
+    rw [he] at h
+    simp only at h
+    have g2 : Good true { st with locals := some [], globals := c, localTasks := some [], globalTasks := t } :=
+      ⟨good.inv, fun t' m => good.lt t ht t' m, fun l e t' m => (by cases e; simp at m), good.ltab c hc,
+        fun l e => (by cases e; exact tableOk_nil), fun _ => ⟨rfl, rfl⟩, fun e => by cases e⟩
+    split at h
+    · rename_i st4 res hf
+      simp only [Out.ok.injEq, Prod.mk.injEq] at h
+      obtain ⟨hst, hres⟩ := h
+      subst hres
+      have herr4 : st4.errors = [] := by rw [← hst] at herr; exact herr
+      obtain ⟨els, perr, tt, p, l3, l4, id', hparse, hlt, _, hm, hrt, g4, r4, e1, e2, e3, e4, hcur, hwf, hframe, hflat⟩ :=
+        fileBody_sim hinj henc fs (assembleFile fs enc fuel) (LocalProject fs fuel) ih hinc (assembleFile_grew fs enc fuel)
+          (assembleFile_rel fs enc fuel) ⟨path :: env.paths, path⟩ path env.paths rfl data id _ st4 _ (withTasks [] l)
+          hproj g2 r rfl rfl rfl hfresh hf herr4
+      refine ⟨els, perr, tt, p, l3, l4, id', hparse, hlt, hm, hrt, ?_, ?_, ?_, ?_, ?_, ?_, hwf, hframe, hflat⟩
+      · rw [← hst]; exact r4
+      · rw [← hst]; simp only [leaveFile]; rw [e1, hc]
+      · rw [← hst]; simp only [leaveFile]; rw [e2, ht]
+      · rw [← hst]; rfl
+      · rw [← hst]; rfl
+      · rw [← hst]; exact hcur
+    · cases h
+
 end
 
 end Trion.Asm.Multi
